@@ -14,10 +14,10 @@ Judge(e) ==
   ELSE CASE e.fn = "ref" ->
          LET p == R(N(e, "pn_n"), N(e, "pd_n")) IN
          IF p.d = Zero THEN Note("C15", "zero-denominator", sc, 0)
-         ELSE LET x == RefScriptFeeExact(ToSmall(N(e, "size_n")), p) IN
-              IF Has(r, "ok") THEN Chk(RIsFloor(FromBE(r.v_n), x), "C15", Sig(e, "wrong-value"), sc, [got |-> r.v_n, n |-> x.n, d |-> x.d])
-                                   /\ Obl("C15", sc, <<"ref", ToSmall(N(e, "size_n")) \div TierInc, Len(r.v_n)>>)
-              ELSE Chk(Overflow(x), "C15", Sig(e, "spurious-error"), sc, r.err)
+         ELSE LET x == RefExpect(N(e, "size_n"), p) IN
+              IF Has(r, "ok") THEN Chk(x.k = "val" /\ RIsFloor(FromBE(r.v_n), x.x), "C15", Sig(e, "wrong-value"), sc, [got |-> r.v_n, exp |-> x.k])
+                                   /\ Obl("C15", sc, <<"ref", Len(e.size_n), Len(r.v_n)>>)
+              ELSE Chk(x.k = "overflow" \/ Overflow(x.x), "C15", Sig(e, "spurious-error"), sc, r.err)
     [] e.fn = "exu" ->
          LET pm == R(N(e, "mn_n"), N(e, "md_n")) ps == R(N(e, "sn_n"), N(e, "sd_n")) IN
          IF pm.d = Zero \/ ps.d = Zero THEN Note("C15", "zero-denominator", sc, 0)
